@@ -11,20 +11,23 @@ pub mod c08;
 pub mod c09;
 pub mod c10;
 pub mod c11;
+pub mod c12;
 pub mod c14;
 pub mod c15;
 pub mod c16;
 pub mod c17;
 pub mod c18;
+pub mod c20;
 pub mod hostile;
 
-pub const ALL: &[&str] = &["C01", "C02", "C03", "C04", "C05", "C06", "C07", "C08", "C09", "C10", "C11", "C13", "C14", "C15", "C16", "C17", "C18"];
+pub const ALL: &[&str] = &["C01", "C02", "C03", "C04", "C05", "C06", "C07", "C08", "C09", "C10", "C11", "C12", "C13", "C14", "C15", "C16", "C17", "C18", "C20"];
 
 pub fn make(id: &str) -> Option<Box<dyn Check>> {
     match id {
         "C01" => Some(Box::new(c01::Hostile::new("C01"))),
         "C10" => Some(Box::new(c10::C10)),
         "C11" => Some(Box::new(c11::C11)),
+        "C12" => Some(Box::new(c12::C12)),
         "C13" => Some(Box::new(c01::Hostile::new("C13"))),
         "C02" => Some(Box::new(c02::C02)),
         "C03" => Some(Box::new(c03::C03)),
@@ -39,6 +42,7 @@ pub fn make(id: &str) -> Option<Box<dyn Check>> {
         "C16" => Some(Box::new(c16::C16)),
         "C17" => Some(Box::new(c17::C17::new())),
         "C18" => Some(Box::new(c18::C18::new())),
+        "C20" => Some(Box::new(c20::C20)),
         _ => None,
     }
 }
